@@ -1,7 +1,7 @@
 """C05 - a rule is valid iff every node its path selects satisfies its condition."""
 from ..runner import TestSpec, Outcome
 from ..terms import show
-from .. import model, build, gen as G
+from .. import model, build, gen as G, spec as SP
 from ..snapshot import exact
 
 ID = "C05"
@@ -18,15 +18,17 @@ ASSUMPTIONS = ["rule conditions are value-kind; rule paths carry no datum/multip
 
 def gen_case(r):
     d = G.doc(r, 4 if r.coin(60) else 3)
-    mode = "any" if r.coin() else "typed"
-    rule = G.rule_for(r, d, mode=mode, cond_depth=3, max_len=4)
+    via_spec = r.pct() < 30
+    mode = "typed" if via_spec else ("any" if r.coin() else "typed")
+    rule = G.rule_for(r, d, mode=mode, cond_depth=3, max_len=4, meaningful=via_spec)
     if r.coin():
         # anchor the condition on one of the selected nodes so that verdicts are mixed
         sel = model.ref_select(rule.path.parts, d) if rule.path.parts else [(d, ())]
         if sel:
             node = r.choice(sel)[0]
-            rule = rule.replace(cond=G.anchored_value_cond(r, node, mode, 2))
-    return d, rule, r.coin()
+            rule = rule.replace(cond=G.anchored_value_cond(r, node, mode, 2, meaningful=via_spec))
+    spec = SP.rule_spec(rule, SP.Spelling(r)) if via_spec else None
+    return d, rule, r.coin(), spec
 
 
 def check_rule_test(out, rt, ref, doc, prefix="", scalars_only=False):
@@ -59,7 +61,7 @@ def check_rule_test(out, rt, ref, doc, prefix="", scalars_only=False):
 
 
 def body(case):
-    doc, rule, wrap = case
+    doc, rule, wrap, spec = case
     out = Outcome()
     ns = build.ns()
     ref = model.ref_rule_test(rule, doc)
@@ -69,7 +71,15 @@ def body(case):
               "tested" if ref["tested"] else "untested")
     out.sample = f"{show(rule,400)} on {show(doc,200)} -> valid={ref['valid']} fails={len(ref['fails'])}/{nsel}"
     try:
-        robj = build.build_rule(rule)
+        if spec is not None:
+            # the rule given as a spec (any spelling), as a schema file would give it
+            import copy, warnings
+            with warnings.catch_warnings():
+                warnings.simplefilter("ignore")
+                robj = ns.r.Rule.from_spec(copy.deepcopy(spec))
+            out.label("rule-from-spec")
+        else:
+            robj = build.build_rule(rule)
     except Exception as e:
         out.exc("build-rule", e)
         return out
